@@ -80,12 +80,12 @@ struct Mode { const char* name; const gsl_odeiv2_step_type* type; bool adaptive;
 static void layer2_run(const Problem& p, const Mode& m, double tini, const char* oracle, int ncalls = 1, int via = 0) {
   Probe s0(p, tini);
   std::unique_ptr<Probe> moved;
+  if (via >= 4) {} else
   if (via == 1) moved.reset(new Probe(std::move(s0)));
   else if (via == 2) { moved.reset(new Probe()); *moved = std::move(s0); }
   else if (via == 3) { Problem q = p; q.nx = p.nx + 1; q.d = (p.d == 2 ? 3 : 2); q.nrho = 3 - p.nrho + 1; q.nsc = 2 - p.nsc; for (int b = 0; b < 5; b++) q.sw[b] = true; moved.reset(new Probe(q, 3.0)); moved->Set_rel_error(1e-3); moved->Set_abs_error(1e-3); moved->set_flat(probe_state(q, 1)); moved->Evolve(0.1); *moved = std::move(s0); }
-  Probe& s = via ? *moved : s0;
-  if (via) { s0.P.kappa = 55; s0.P.d = 2; }   // the moved-from object's problem is poisoned: callbacks must reach the new object
-  if (via) count("moved_solver_runs");
+  Probe& s = (via >= 1 && via <= 3) ? *moved : s0;
+  if (via >= 1 && via <= 3) { s0.P.kappa = 55; s0.P.d = 2; count("moved_solver_runs"); }   // the moved-from object's problem is poisoned: callbacks must reach the new object
   s.Set_GSL_step(m.type); s.Set_AdaptiveStep(m.adaptive);
   if (m.adaptive) { s.Set_rel_error(1e-10); s.Set_abs_error(1e-10); s.Set_h(1e-4); }
   else { s.Set_NumSteps(2000); s.Set_rel_error(1e-2); s.Set_abs_error(1e-2); }
@@ -96,6 +96,21 @@ static void layer2_run(const Problem& p, const Mode& m, double tini, const char*
   std::string ctx = "{\"layer\":2,\"evolve_calls\":" + std::to_string(ncalls) + ",\"problem\":" + pjson(p) + ",\"stepper\":" + jstr(m.name) + ",\"adaptive\":" + (m.adaptive ? "true" : "false") + ",\"t_ini\":" + jnum(tini) + ",\"oracle\":" + jstr(oracle) + "}";
   sample_every(g_idx++, 9001, ctx);
   // ncalls > 1: the same interval covered by several consecutive Evolve calls (a later call starts at t != t_ini)
+  if (via >= 4) {   // the move happens between two segments: clock, state and settings travel with the object
+    Probe& src = s; src.Evolve(0.4 * tau);
+    std::unique_ptr<Probe> mv2;
+    if (via == 4) mv2.reset(new Probe(std::move(src)));
+    else if (via == 5) { mv2.reset(new Probe()); *mv2 = std::move(src); }
+    else { Problem q = p; q.nx = p.nx + 1; q.nrho = 3 - p.nrho + 1; for (int b = 0; b < 5; b++) q.sw[b] = true; mv2.reset(new Probe(q, 3.0)); mv2->Set_rel_error(1e-2); mv2->Set_abs_error(1e-2); mv2->set_flat(probe_state(q, 1)); mv2->Evolve(0.1); *mv2 = std::move(src); }
+    src.P.kappa = 55; count("moved_solver_runs");
+    try { mv2->Evolve(tau - 0.4 * tau); } catch (const std::exception& ex) { violation(std::string("Evolve:throws:") + m.name + ":after-move", "{\"case\":" + ctx + ",\"what\":" + jstr(ex.what()) + "}"); return; }
+    std::vector<double> got = mv2->get_flat(), want = p.exact(y0, tini, tini + tau);
+    double scale = std::max(maxabs(y0), maxabs(want)), e = maxdiff(got, want), tol = m.tol * scale * 2;
+    if (!(e <= tol) || !(std::fabs(mv2->Get_t() - (tini + tau)) <= 2 * (8 + (m.adaptive ? 0 : 2000)) * ref::EPS * (std::fabs(tini) + tau)) || !(mv2->Get_t_initial() == tini))
+      violation(std::string("Evolve:solution-mismatch:moved-between-segments:via") + std::to_string(via), "{\"case\":" + ctx + ",\"err\":" + jnum(e) + ",\"t\":" + jnum(mv2->Get_t()) + ",\"t_initial\":" + jnum(mv2->Get_t_initial()) + "}");
+    if (!mv2->views_coincide()) violation("Evolve:views-not-realiased", ctx);
+    return;
+  }
   try { if (ncalls == 1) s.Evolve(tau); else { s.Evolve(0.4 * tau); if (ncalls == 3) { s.Evolve(0.25 * tau); s.Evolve(tau - 0.4 * tau - 0.25 * tau); } else s.Evolve(tau - 0.4 * tau); } }
   catch (const std::exception& ex) { violation(std::string("Evolve:throws:") + m.name + (m.adaptive ? ":adaptive" : ":fixed"), "{\"case\":" + ctx + ",\"what\":" + jstr(ex.what()) + "}"); return; }
   std::vector<double> got = s.get_flat(), want;
@@ -178,7 +193,7 @@ int main(int argc, char** argv) {
     layer2_run(p, m, tini, "closed-form");
   }
   // the evolved object is move-constructed / move-assigned (into a fresh and over a used object of another shape): every shape, two stepper modes
-  for (int mi : {2, 7}) for (int nx = 1; nx <= 3; nx++) for (int d : {2, 3}) for (int nrho = 1; nrho <= 2; nrho++) for (int nsc = 0; nsc <= 2; nsc++) for (int via = 1; via <= 3; via++) {
+  for (int mi : {2, 7}) for (int nx = 1; nx <= 3; nx++) for (int d : {2, 3}) for (int nrho = 1; nrho <= 2; nrho++) for (int nsc = 0; nsc <= 2; nsc++) for (int via = 1; via <= 6; via++) {
     if ((size_t)mi >= modes.size()) continue;
     if ((caseno++ % ar.nshards) != ar.shard) continue;
     Problem p; p.nx = nx; p.d = d; p.nrho = nrho; p.nsc = nsc; for (int b = 0; b < 5; b++) p.sw[b] = 1; p.family = 0; p.kappa = 0.3; p.kappa2 = 0.0;
